@@ -12,7 +12,7 @@
 
    The model follows the code after the two proposed repairs
      fixes/F06_ridge2fold_rank_cut.diff     (n = sum(s > rcond), not len(s > rcond))
-     fixes/F15_ridge2fold_scorer_args.diff  (scorer gets (prediction, truth) in sklearn's order)
+     fixes/F25_ridge2fold_scorer_args.diff  (scorer gets (prediction, truth) in sklearn's order)
    The behaviour of the unrepaired code is kept in Findings/F06_ridge2fold_rank.v.
    Definitions only.  Stdlib style. *)
 From Coq Require Import ZArith List Bool Arith PrimFloat.
